@@ -65,7 +65,7 @@ fn log_event(this: &TransactionalMemory, kind: u8, arg: u64) -> Result {
     Ok(())
 }
 
-fn stub_write_header(this: &TransactionalMemory, header: &DatabaseHeader) -> Result {
+pub(in crate::tree_store::page_store) fn stub_write_header(this: &TransactionalMemory, header: &DatabaseHeader) -> Result {
     unsafe {
         assert!(EV_IMG_N < 3);
         match EV_IMG_N {
@@ -79,7 +79,7 @@ fn stub_write_header(this: &TransactionalMemory, header: &DatabaseHeader) -> Res
 }
 
 // PagedCachedFile methods are stubbed through free functions taking the receiver first
-fn stub_flush(this: &PagedCachedFile) -> Result {
+pub(in crate::tree_store::page_store) fn stub_flush(this: &PagedCachedFile) -> Result {
     let tm = unsafe { &*CUR_MEM };
     let _ = this;
     log_event(tm, EV_F, 0)
@@ -105,6 +105,22 @@ static mut CUR_MEM: *const TransactionalMemory = core::ptr::null();
 
 /// TransactionalMemory by struct literal (TransactionalMemory::new does not finish symbolic
 /// execution): the given header, no allocators, empty unpersisted state, literal cache.
+impl TransactionalMemory {
+    pub(crate) fn verif_latch_failure(&self) {
+        self.storage.verif_latch_failure();
+    }
+}
+
+pub(crate) fn set_cur_mem(mem: &TransactionalMemory) {
+    unsafe {
+        CUR_MEM = mem as *const TransactionalMemory;
+    }
+}
+
+pub(crate) fn backend_counters() -> (u32, u32) {
+    unsafe { (cf::B_CLOSE, cf::B_AFTER_CLOSE) }
+}
+
 pub(crate) fn literal_mem_default() -> TransactionalMemory {
     literal_mem(hh::any_two_valid_slots_header(0), None)
 }
@@ -250,7 +266,7 @@ macro_rules! commit_harness {
     };
 }
 
-// @harness props=C01,C03 tier=quick timeout=2400 mem=24 stubbing=1 replay=scenario:commit_events
+// @harness props=C01,C03 tier=quick timeout=2400 mem=24 stubbing=1 replay=scenario:commit_events flavor=nodebug optcover=failed|refused
 // @desc the real commit() from an arbitrary header state, 1PC or 2PC, WITHOUT storage failure: the storage events are exactly W(H1) [F if two_phase] W(H2) F, where H1/H2 are byte-equal to the images obtained by write_secondary_slot(id, roots) and then swap_primary_slot + two_phase flag on a clone of the pre-state header (the guarantee c01_crash_recover assumes), both images keep recovery_required, and commit returns Ok; at every event a concurrent observer still reads the OLD commit point (nothing is published before the final flush returned); on return the published header is H2 and reads are served from the primary.
 // @functions TransactionalMemory::commit, DatabaseHeader::{write_secondary_slot,swap_primary_slot,to_bytes,primary_slot,secondary_slot}, TransactionHeader::to_bytes, InMemoryState::latest_slot, PagedCachedFile::check_io_errors, CheckedBackend::check_failure, UnpersistedState::clear
 // @bound one commit; ShrinkPolicy::Never; geometry 512/0/16 one region; pre-state slots, flags, new roots, new id (above the primary's), symbolic; commit mode (1pc/2pc) and primary index (p0/p1) fixed per harness
@@ -261,7 +277,7 @@ commit_harness!(c01_commit_events_2pc_p0, 0, true, false);
 commit_harness!(c01_commit_events_1pc_p1, 1, false, false);
 commit_harness!(c01_commit_events_2pc_p1, 1, true, false);
 
-// @harness props=C08,C01 tier=quick timeout=2400 mem=24 stubbing=1 replay=scenario:commit_events
+// @harness props=C08,C01 tier=quick timeout=2400 mem=24 stubbing=1 replay=scenario:commit_events flavor=nodebug
 // @desc the real commit() from an arbitrary header state, 1PC or 2PC, with at most one injected storage failure at an arbitrary event, or a failure already latched: without a failure the storage events are exactly W(H1) [F if two_phase] W(H2) F, where H1/H2 are byte-equal to the images obtained by write_secondary_slot(id, roots) and then swap_primary_slot + two_phase flag on a clone of the pre-state header (the guarantee c01_crash_recover assumes), both images keep recovery_required, and commit returns Ok; at every event a concurrent observer still reads the OLD commit point (nothing is published before the final flush returned); on return the published header is H2 and reads are served from the primary. With a failure injected at event k: commit returns Err, the events are the prefix up to k, and the published state (ids, roots, read_from_secondary) is untouched. With a failure already latched: Err before any storage event.
 // @functions TransactionalMemory::commit, DatabaseHeader::{write_secondary_slot,swap_primary_slot,to_bytes,primary_slot,secondary_slot}, TransactionHeader::to_bytes, InMemoryState::latest_slot, PagedCachedFile::check_io_errors, CheckedBackend::check_failure, UnpersistedState::clear
 // @bound one commit; ShrinkPolicy::Never; geometry 512/0/16 one region; pre-state slots, flags, new roots, new id (above the primary's), failure position symbolic; commit mode and primary index fixed per harness
@@ -449,4 +465,93 @@ fn c01_twin_commit_events_must_fail() {
     assert!(unsafe { EV_N } == 3);
     core::mem::forget(r);
     core::mem::forget(mem);
+}
+
+
+// ---- C11 / C14: mark_page_allocated (allocator rebuild faces page numbers read from a file) -----
+
+use crate::tree_store::page_store::buddy_allocator::verif_kani as bh;
+
+fn mark_case<const N: u32>() {
+    // one region of N pages (trailing region of a 16-page geometry), arbitrary allocator state
+    let mut h = hh::any_two_valid_slots_header(0);
+    h.verif_set_counts(0, N);
+    let w = bh::any_words();
+    let a = bh::mk_alloc(N, 16, &w);
+    let pre = bh::r_inv(&a, N, 16);
+    kani::assume(pre.is_some());
+    let pre = pre.unwrap();
+    let allocators = Allocators {
+        region_tracker: RegionTracker::verif_empty(),
+        region_allocators: alloc::vec![a],
+    };
+    let mem = literal_mem(h, Some(allocators));
+    let region: u32 = kani::any();
+    kani::assume(region <= 0x000F_FFFF);
+    let index: u32 = kani::any();
+    kani::assume(index <= MAX_PAGE_INDEX);
+    let order: u8 = kani::any();
+    kani::assume(order <= 31);
+    macro_rules! call {
+        ($k:expr) => {
+            mem.mark_page_allocated(PageNumber { region, page_index: index, page_order: $k })
+        };
+    }
+    let r = match order {
+        0 => call!(0u8),
+        1 => call!(1u8),
+        2 => call!(2u8),
+        3 => call!(3u8),
+        4 => call!(4u8),
+        5 => call!(5u8),
+        21 => call!(21u8),
+        _ => call!(31u8),
+    };
+    let o = match order { 0..=5 => order, 21 => 21, _ => 31 };
+    let inside = region == 0 && o <= 4 && (u64::from(index) + 1) << o <= u64::from(N);
+    match &r {
+        Ok(()) => {
+            assert!(inside, "an accepted page lies inside its region");
+            let bm = bh::block_mask(index, o);
+            assert!(pre & bm == bm, "an accepted page was entirely free (no overlap with a marked page)");
+            let st = mem.state.lock().unwrap();
+            let post = bh::r_inv(&st.allocators.as_ref().unwrap().region_allocators[0], N, 16);
+            assert!(post == Some(pre & !bm), "exactly the page was marked allocated");
+            kani::cover!(o >= 1, "multi-page block marked");
+        }
+        Err(_) => {
+            if inside {
+                let bm = bh::block_mask(index, o);
+                assert!(pre & bm != bm, "a free in-range page is never refused");
+            }
+            kani::cover!(!inside, "out-of-range or oversized page number rejected as corruption");
+            kani::cover!(inside, "overlapping page rejected as corruption");
+        }
+    }
+    core::mem::forget(r);
+    core::mem::forget(mem);
+}
+
+// @harness props=C11,C14 tier=quick timeout=1800 mem=16 stubbing=1 flavor=nodebug replay=scenario:page_alter
+// @desc mark_page_allocated (the only gate the allocator rebuild puts in front of page numbers read from the file) with ANY region, index and order on an arbitrary valid allocator state: Ok only if the page lies inside region 0 and its order fits, it was entirely free, and then exactly that block is marked; every other page number - wrong region, order above the limit, extending past the region, overlapping an allocated page - returns Err(Corrupted) and nothing panics or indexes out of bounds
+// @functions TransactionalMemory::{mark_page_allocated,check_page_order}, DatabaseHeader::layout, DatabaseLayout::{num_regions,region_layout}, BuddyAllocator::{record_alloc,record_alloc_inner}
+// @bound one region of 13 (resp. 16) pages, capacity 16; allocator words, region, index (20 bits), order (0..=31, dispatched) arbitrary; profile without debug assertions
+// @stubs alloc::fmt::format -> empty (error messages)
+#[kani::proof]
+#[kani::unwind(20)]
+#[kani::stub(alloc::fmt::format, hh::no_format)]
+fn c11_mark_page_allocated_n13() {
+    mark_case::<13>();
+}
+
+// @harness props=C11,C14 tier=quick timeout=1800 mem=16 stubbing=1 flavor=nodebug replay=scenario:page_alter
+// @desc as c11_mark_page_allocated_n13 for a full 16-page region
+// @functions TransactionalMemory::mark_page_allocated, BuddyAllocator::record_alloc
+// @bound one region of 16 pages
+// @stubs alloc::fmt::format -> empty
+#[kani::proof]
+#[kani::unwind(20)]
+#[kani::stub(alloc::fmt::format, hh::no_format)]
+fn c11_mark_page_allocated_n16() {
+    mark_case::<16>();
 }
